@@ -1,6 +1,6 @@
 (* props/C10.v - C10: the CLI writes the best replica, labelled with what was asked for. *)
 From Coq Require Import ZArith NArith List Bool Reals Floats String. Import ListNotations.
-From PV Require Import Num NumR model.Tables model.Spec model.Geom model.Optimiser model.OptSpec model.Pipeline model.Svg model.Json gen.GenTables gen.GenSchema proofs.OptStruct proofs.OptLoop proofs.LatticeFacts proofs.TablesFacts proofs.PipelineFacts proofs.OutputFacts.
+From PV Require Import Num NumR model.Tables model.Spec model.Geom model.Optimiser model.OptSpec model.Pipeline model.Svg model.Json gen.GenTables gen.GenSchema proofs.OptStruct proofs.OptLoop proofs.LatticeFacts proofs.TablesFacts proofs.PipelineFacts proofs.OutputFacts proofs.FloatFacts proofs.OrderFacts.
 
 Theorem C10_analyse_best_replica :
   forall (A : Type) (leb : A -> A -> bool), (forall a b : A, leb a b = true \/ leb b a = true)
@@ -44,4 +44,10 @@ Theorem C10_tables_are_spec :
   tables_match_spec gen_groups = true.
 Proof. exact tables_are_spec. Qed.
 Print Assumptions C10_tables_are_spec.
+
+Theorem C10_float_best_is_max :
+  forall (X : Type) (l : list (scored X)) (b : scored X), best (scored X) sleb l = Some b -> In b l /\
+    (forall x : scored X, In x l -> fleb (sc_score x) (sc_score b) = true).
+Proof. exact (@float_best_is_max). Qed.
+Print Assumptions C10_float_best_is_max.
 
